@@ -34,13 +34,13 @@ CHECKS["C01"] = {
 CHECKS["C07"] = {
     "pkg": "./c07", "run": "^TestC07$", "level": "exploration",
     "technique": "runtime monitor: brute-force ranking with the same space.Distance as oracle (bit-exact score sequence on small collections; mean recall@10 floor on large ones)",
-    "level_text": "Differential monitor against brute force: exact top-k (bitwise score sequence, ids modulo ties) for thousands of seeded insert-only collections within the small-collection bound, every k in 1..n+1, harness-chosen levels; mean recall@10 >= 0.8 over 200 queries on each of 2 (quick) / 6 (thorough) random collections of 2000-5000 vectors built with default parameters. One small collection in eight is also searched by six goroutines at once, every answer compared with brute force.",
+    "level_text": "Differential monitor against brute force: exact top-k (bitwise score sequence, ids modulo ties) for thousands of seeded insert-only collections within the small-collection bound, every k in 1..n+1, harness-chosen levels; mean recall@10 >= 0.8 over 200 queries on each of 2 (quick) / 6 (thorough) random collections of 2000-5000 vectors built with default parameters. One small collection in eight is also searched by six goroutines at once, every answer compared with brute force. One exact case in eight gives the index a smaller link budget for the upper levels only (HnswMmax below M, level-0 budget derived), which leaves the collection within the bound of the property.",
     "level_note": "Sampled point sets, orders and level assignments; the recall floor is a statistical statement about the collections built here (seeded, deterministic), not a bound for all data.",
     "shards": {"quick": 8, "thorough": 16},
     "timeout": {"quick": 600, "thorough": 3000},
     "rule": "exactness: case c = generated config + insert-only collection of n<=2M+1 items (generic / clustered / collinear / duplicate points / all on one level; levels 0..6 chosen by the harness) with max(ef,k)>=n, 4 queries x every k in 1..n+1 compared with brute force; non-trivial = n>=3; recall: seeded uniform/normal collections, default parameters, real RandomLevel; distinct = digest of (config, insert list)",
     "assumptions": ["ties between equal scores may permute ids", "zero vectors under cosine excluded"],
-    "min": {"any": {"exact_searches": 10000, "recall_collections": 1}},
+    "min": {"any": {"exact_cases_with_a_smaller_upper_level_budget": 300, "exact_searches": 10000, "recall_collections": 1}},
 }
 
 CHECKS["C08"] = {
@@ -58,19 +58,19 @@ CHECKS["C08"] = {
 CHECKS["C02"] = {
     "pkg": "./c02", "run": "^TestC02$", "level": "exploration",
     "technique": "runtime monitor: sequential map model vs delivered outcome, Get, Len, byte counters and full dump after every applied partition change (stand-alone real partition state machine)",
-    "level_text": "Model-based monitor over thousands (quick) to hundreds of thousands (thorough) of seeded logs of all six change kinds on the real partition apply code: per entry it compares the delivered outcome (per item for batches), the contents, Get for every id of the universe, Len, the raw byte counter, the public BytesSize range, and that a failed single operation left the whole dump unchanged.",
+    "level_text": "Model-based monitor over thousands (quick) to hundreds of thousands (thorough) of seeded logs of all six change kinds on the real partition apply code: per entry it compares the delivered outcome (per item for batches), the contents, Get for every id of the universe, Len, the raw byte counter, the public BytesSize range, and that a failed single operation left the whole dump unchanged. One log in eight carries single inserts and updates whose metadata has a key over 255 bytes or a value over 65535 bytes (what the snapshot format cannot express): the partition either holds it like anything else or refuses the operation, and a refused operation must have changed nothing.",
     "level_note": "Sequential application only (concurrency is C13); default HNSW parameters inside the partition as in production; ids repeated inside one batch are compared only on error identity (mixed outcome allowed).",
     "shards": {"quick": 8, "thorough": 16},
     "timeout": {"quick": 600, "thorough": 3000},
     "rule": "case c = log of 10..40 entries over a 4..12-id universe (insert/update/delete and their batch forms with 1..5 items, duplicates inside a batch, metadata nil/empty/empty strings/overlapping keys), dim 1..6, 3 metrics; non-trivial = >=1 failed single operation (dump compared before/after) and >=3 successful entries; distinct = digest of the log",
     "assumptions": ["outcome is captured through the partition's own notificator under the entry's notification id (hook VerifCreateWithId)"],
-    "min": {"any": {"entries_applied": 20000, "failed_single_ops_checked": 1000}},
+    "min": {"any": {"single_ops_with_overlong_metadata": 200, "entries_applied": 20000, "failed_single_ops_checked": 1000}},
 }
 
 CHECKS["C04"] = {
     "pkg": "./c04", "run": "^TestC04$", "level": "exploration",
     "technique": "runtime monitor: content equality and per-entry outcome equality of real partition state machines fed byte-identical logs, with snapshot/restore at every cut point",
-    "level_text": "Differential monitor on the real partition apply/snapshot/restore code: replicas fed byte-identical entries are compared on contents and per-entry outcomes with each other and with a sequential map, for apply-all and for snapshot-at-cut + restore (into a fresh replica, into a used/diverged replica, twice) + replay of the rest. For logs of up to 40 entries every cut point 0..len is taken (exhaustive over cuts per log). Every earlier snapshot of the incremental replica is restored again after all later ones were taken (the bytes handed out are kept by the log store and by messages to lagging followers).",
+    "level_text": "Differential monitor on the real partition apply/snapshot/restore code: replicas fed byte-identical entries are compared on contents and per-entry outcomes with each other and with a sequential map, for apply-all and for snapshot-at-cut + restore (into a fresh replica, into a used/diverged replica, twice) + replay of the rest. For logs of up to 40 entries every cut point 0..len is taken (exhaustive over cuts per log). Every earlier snapshot of the incremental replica is restored again after all later ones were taken (the bytes handed out are kept by the log store and by messages to lagging followers). Four logs are worked on at a time, each by a goroutine of its own (as the partitions of one node are), so that snapshots and restores of different state machines overlap.",
     "level_note": "Logs are sampled; cuts are exhaustive only for logs <= 40 entries (16 sampled cuts for the long logs); graph shape, levels and links are deliberately not compared (legitimately non-deterministic).",
     "shards": {"quick": 8, "thorough": 16},
     "timeout": {"quick": 600, "thorough": 3000},
@@ -108,14 +108,14 @@ CHECKS["C15"] = {
 CHECKS["C16"] = {
     "pkg": "./c16", "run": "^TestC16", "level": "exploration",
     "technique": "runtime monitor: structural check of every placement proposed by the real DatasetManager.Create/Allocator over a scripted raft.Group, plus fixed-threshold independence and spread statistics",
-    "level_text": "Monitor on the real Create path (allocator + cluster connection) with a scripted raft group that captures the proposal bytes: for every N in 1..16 x R in 1..8 x P in {1,2,3,8,64} (all 640 configurations, 30 creates each quick / 400 thorough) each partition must get exactly min(R,N) distinct member nodes; independence is decided with fixed thresholds (an all-identical placement where its probability is <= 1e-12; pair-coincidence rate and per-node load inside Hoeffding bands with delta = 1e-10). After the static matrix every configuration goes through a membership history (24 quick / 120 thorough steps: removals of nodes that were dialled before and of nodes that never were, joins), with creates for R in {1,3,8} after every step: each placement must use exactly min(R, N) distinct nodes that are members at that moment. A further family commits and applies every create before the next one is placed (200 quick / 1200 thorough creates for 3 shapes per N, over a real log store, local node not a member): pair coincidence, all-identical placements and a create repeating the previous placement are tested with the same fixed thresholds. Real-cluster part (2 quick / 16 thorough): a member is down while one node leaves and another joins, the others compact, the member returns (with -join false in every second case) and is caught up by the leader's snapshot; datasets with R in {1,3,8} created through it must be placed on min(R, N) distinct current members.",
+    "level_text": "Monitor on the real Create path (allocator + cluster connection) with a scripted raft group that captures the proposal bytes: for every N in 1..16 x R in 1..8 x P in {1,2,3,8,64} (all 640 configurations, 30 creates each quick / 400 thorough) each partition must get exactly min(R,N) distinct member nodes; independence is decided with fixed thresholds (an all-identical placement where its probability is <= 1e-12; pair-coincidence rate and per-node load inside Hoeffding bands with delta = 1e-10). After the static matrix every configuration goes through a membership history (24 quick / 120 thorough steps: removals of nodes that were dialled before and of nodes that never were, joins), with creates for R in {1,3,8} after every step: each placement must use exactly min(R, N) distinct nodes that are members at that moment. A further family commits and applies every create before the next one is placed (200 quick / 1200 thorough creates for 3 shapes per N, over a real log store, local node not a member): pair coincidence, all-identical placements and a create repeating the previous placement are tested with the same fixed thresholds. Real-cluster part (2 quick / 16 thorough): a member is down while one node leaves and another joins, the others compact, the member returns (with -join false in every second case) and is caught up by the leader's snapshot; datasets with R in {1,3,8} created through it must be placed on min(R, N) distinct current members. Creations also arrive concurrently (six at a time on one node, as gRPC serves them), each applied through the scripted group.",
     "level_note": "The configurations are enumerated exhaustively within the stated ranges; random seeds of the shuffle are sampled (global math/rand seeded from VERIF_SEED); statistical tests have a per-run false-alarm probability below 1e-7.",
     "shards": {"quick": 8, "thorough": 16},
     "timeout": {"quick": 300, "thorough": 1800},
     "exhaustive": "N 1..16 x R 1..8 x P in {1,2,3,8,64}",
     "rule": "case = configuration (N,R,P); T creates per configuration, every partition of every create checked structurally; distinct = (N,R,P); all non-trivial",
     "assumptions": ["placement is what the create-dataset proposal carries (bytes captured at raft.Group.Propose)"],
-    "min": {"any": {"applied_creates_checked": 1000, "creates_checked": 10000, "independence_tests": 300}},
+    "min": {"any": {"concurrent_creates_checked": 100, "applied_creates_checked": 1000, "creates_checked": 10000, "independence_tests": 300}},
 }
 
 CHECKS["C13"] = {
@@ -136,7 +136,7 @@ CHECKS["C17"] = {
     "mem_gb": {"quick": 0, "thorough": 0},
     "pkg": "./c17", "run": "^TestC17$", "level": "exploration",
     "technique": "runtime monitor on an in-process cluster of real servers: Dataset.SizeInfo on every node vs the sum of harness-known partition sizes, with injected PartitionInfo failures and hangs (gRPC interceptors); the Go race detector decides for accesses inside Dataset.SizeInfo / Len / BytesSize (two unsynchronised writers of one sum)",
-    "level_text": "Monitor on real anndb.Server clusters in one process (real raft, real gRPC between nodes): seeded topologies of 1..4 nodes, 1..8 partitions with pairwise distinct sizes, replication 1..3; SizeInfo is called repeatedly on every node (all-local, one-remote, several-remote placements) and must equal the sums of the per-partition sizes; then every needed remote lookup is made to fail or hang and the call must fail. Finally a node that holds replicas is removed from the membership after the others have asked it before (their client connections to it are closed): every SizeInfo afterwards fails or reports the full sums.",
+    "level_text": "Monitor on real anndb.Server clusters in one process (real raft, real gRPC between nodes): seeded topologies of 1..4 nodes, 1..8 partitions with pairwise distinct sizes, replication 1..3; SizeInfo is called repeatedly on every node (all-local, one-remote, several-remote placements) and must equal the sums of the per-partition sizes; then every needed remote lookup is made to fail or hang and the call must fail. Finally a node that holds replicas is removed from the membership after the others have asked it before (their client connections to it are closed): every SizeInfo afterwards fails or reports the full sums. The truth is read from the replicas' indices themselves; every hosting node's answer to a size lookup must equal it, and all checks are repeated after updates that change an item's bytes but not the item count (every node has been asked before).",
     "level_note": "Topologies and completion orders are sampled (goroutine scheduling is not controlled beyond repetition); truth per partition is what a hosting node's PartitionInfo reports while quiescent; nodes that do not hold a partition are asked too and must fail or answer that true size (the serving half of a remote lookup; a caller with a lagging placement view would add the answer to its sum).",
     "race": {"quick": True, "thorough": True},
     "race_deciding_frames": ["storage.(*Dataset).SizeInfo", "storage.(*Dataset).Len", "storage.(*Dataset).BytesSize"],
@@ -144,7 +144,7 @@ CHECKS["C17"] = {
     "timeout": {"quick": 900, "thorough": 3400},
     "rule": "case c = topology (nodes, partitions, replication) with distinct partition sizes; 5 SizeInfo calls per node plus 2 fault modes per node with remote partitions; non-trivial = >=2 partitions; distinct = digest of (topology, sizes, placement)",
     "assumptions": ["in-process servers with accelerated raft ticks behave like separate processes for the data plane"],
-    "min": {"any": {"sizeinfo_calls_after_a_node_left": 8, "sizeinfo_calls_checked": 50, "lookups_served_by_non_hosting_nodes_checked": 5}},
+    "min": {"any": {"size_checks_after_count_preserving_changes": 3, "lookups_served_by_hosting_nodes_checked": 20, "sizeinfo_calls_after_a_node_left": 8, "sizeinfo_calls_checked": 50, "lookups_served_by_non_hosting_nodes_checked": 5}},
 }
 
 CHECKS["C09"] = {
@@ -164,27 +164,27 @@ CHECKS["C10"] = {
     "mem_gb": {"quick": 0, "thorough": 0},
     "pkg": "./c10", "run": "^TestC10$", "level": "exploration",
     "technique": "runtime monitor: routing function evaluated over ids x every modulus 1..1024 (range, repeatability, equality across fresh processes) + placement observed on an in-process cluster after writes through every entry node and API path",
-    "level_text": "Pure part: 20k (quick) / 200k (thorough) ids (random, all-zero, all-ones, every single bit, halves swapped) x every n in 1..1024: result in range, identical on repeated and concurrent evaluation, identical table digest in two fresh processes. System part: real 3-node clusters with 1/2/5/8 partitions and replication 1-2; each id is written through every entry node and insert path, updated from a second node and removed from a third through single and batch paths, and after each step exactly the replicas of partition route(id, n) hold it and no other partition does. Batches of 8-24 full-entropy ids spanning partitions are inserted, updated and removed, each step through a different node, and every id must be held by its owner only. Size queries and searches are issued on every node between the write phases (and before the first write in every second case). In every second round a multi-partition batch also carries refused items (wrong dimension), first and in the middle.",
+    "level_text": "Pure part: 20k (quick) / 200k (thorough) ids (random, all-zero, all-ones, every single bit, halves swapped) x every n in 1..1024: result in range, identical on repeated and concurrent evaluation, identical table digest in two fresh processes. System part: real 3-node clusters with 1/2/5/8 partitions and replication 1-2; each id is written through every entry node and insert path, updated from a second node and removed from a third through single and batch paths, and after each step exactly the replicas of partition route(id, n) hold it and no other partition does. Batches of 8-24 full-entropy ids spanning partitions are inserted, updated and removed, each step through a different node, and every id must be held by its owner only. Size queries and searches are issued on every node between the write phases (and before the first write in every second case). In every second round a multi-partition batch also carries refused items (wrong dimension), first and in the middle. The ids written through every entry node and path include the all-zero and the all-ones id.",
     "level_note": "Ids are sampled; the moduli 1..1024 are enumerated completely; the system part samples topologies (replica choice for proxied writes is random inside the code under test).",
     "shards": {"quick": 5, "thorough": 12},
     "timeout": {"quick": 900, "thorough": 3400},
     "exhaustive": "partition counts 1..1024 for every sampled id (pure part)",
     "rule": "pure: one case = the whole table; system: case c = topology, 24 (entry node x insert path x update path x remove path) sequences, placement checked after each of the 3 steps; all non-trivial; distinct = digest of the topology description",
     "assumptions": ["placement is read from each node's partition index through the verif accessor"],
-    "min": {"any": {"pure_evaluations": 1000000, "placements_checked": 100, "fresh_process_tables": 2}},
+    "min": {"any": {"corner_ids_written_through_the_cluster": 4, "pure_evaluations": 1000000, "placements_checked": 100, "fresh_process_tables": 2}},
 }
 
 CHECKS["C11"] = {
     "mem_gb": {"quick": 0, "thorough": 0},
     "pkg": "./c11", "run": "^TestC11$", "level": "exploration",
     "technique": "runtime monitor on an in-process cluster: acknowledged writes vs owner-partition contents, raft-log growth on rejected writes (RecWAL), batch error maps vs a model, and caller outcomes under a forced apply-before-wait schedule (pause point) and concurrent callers",
-    "level_text": "Monitor on real clusters of 1..3 nodes: (a) every acknowledged insert is on a replica of the owner immediately and on all at quiescence; (c) dimension mismatches are rejected and no partition raft log grows (durable view of the WAL wrapper); (d) batches mixing present, absent and wrong-dimension items return exactly the model's error map and apply the rest; (e) callers are held at the pause point between Propose and the wait until their own entry has been applied and must still get their own outcome, then 24 concurrent callers run insert/duplicate/update/remove/absent sequences whose outcomes are all distinguishable. Every caller also runs five batch steps on ids of its own whose error maps are pairwise distinguishable; and 24 callers per single-replica cluster leave on their own deadline at the pause point while their outcome is already buffered, after which the next write on the partition must get its own outcome. Unloaded-while-pending family: three nodes, a two-replica partition whose other replica is down, three writes accepted by raft that cannot commit, then the dataset is deleted through the third node - each write must return an error.",
+    "level_text": "Monitor on real clusters of 1..3 nodes: (a) every acknowledged insert is on a replica of the owner immediately and on all at quiescence; (c) dimension mismatches are rejected and no partition raft log grows (durable view of the WAL wrapper); (d) batches mixing present, absent and wrong-dimension items return exactly the model's error map and apply the rest; (e) callers are held at the pause point between Propose and the wait until their own entry has been applied and must still get their own outcome, then 24 concurrent callers run insert/duplicate/update/remove/absent sequences whose outcomes are all distinguishable. Every caller also runs five batch steps on ids of its own whose error maps are pairwise distinguishable; and 24 callers per single-replica cluster leave on their own deadline at the pause point while their outcome is already buffered, after which the next write on the partition must get its own outcome. Unloaded-while-pending family: three nodes, a two-replica partition whose other replica is down, three writes accepted by raft that cannot commit, then the dataset is deleted through the third node - each write must return an error. The unreachable-owner writes are also issued through the gRPC services (the status the client receives is what is judged).",
     "level_note": "(b) unreachable owner is produced through the public API (the only hosting node is removed from the cluster, so the entry node forgets its address while the partition still lists it); interleavings beyond the forced one are whatever concurrency produced.",
     "shards": {"quick": 5, "thorough": 12},
     "timeout": {"quick": 900, "thorough": 3400},
     "rule": "case c = topology (1..3 nodes, 1..4 partitions, replication 1..2); 12 acks, 6 dimension cases, 6 batch maps, forced and concurrent caller sequences; all non-trivial; distinct = digest of the topology",
     "assumptions": ["error identity across the gRPC proxy is compared on the message text"],
-    "min": {"any": {"caller_batch_outcomes_checked": 100, "acks_checked": 30, "caller_outcomes_checked": 500, "batch_maps_checked": 10, "unreachable_owner_writes": 3, "no_quorum_writes": 4}},
+    "min": {"any": {"unreachable_owner_writes_over_grpc": 1, "caller_batch_outcomes_checked": 100, "acks_checked": 30, "caller_outcomes_checked": 500, "batch_maps_checked": 10, "unreachable_owner_writes": 3, "no_quorum_writes": 4}},
 }
 
 CHECKS["C03"] = {
@@ -192,14 +192,14 @@ CHECKS["C03"] = {
     "pkg": "./c03", "run": "^TestC03", "level": "fault_enumeration",
     "aux": [{"pkg": "github.com/marekgalovic/anndb/cmd/anndb", "name": "anndb", "env": "VERIF_ANNDB_BIN", "tags": "verif"}],
     "technique": "runtime monitor with fault enumeration: crash armed at every durable-write boundary (before/after each Save / snapshot install / CreateSnapshot of the raft log stores) of a seeded workload on in-process real servers, restart on the same data directory, recovered partition contents vs acknowledged-history oracle Also on real cmd/anndb processes killed with SIGKILL (from outside at a seeded moment of the write storm, or by themselves at the k-th hit of a ready-loop point) and restarted, contents read through a state dump; and a two-fault family (third replica lags, second replica crashes at the write that stores the entry, then the leader crashes).",
-    "level_text": "A pilot run of the seeded workload (4 sequential per-id clients, single and batch insert/update/remove with unique version tags, forced snapshot+compaction of the partition and zero groups) counts the durable writes K of the victim node; the workload is then re-run once for every k in 1..K and both sides with a crash armed there (1 node / 1 replica: all boundaries; 3 nodes / 3 replicas with a minority crash while clients continue: 20 sampled boundaries quick, all thorough). After restart the recovered contents of every replica must be the acknowledged state of every id or that plus the one open operation, with nothing never submitted; the workload then continues and is compared again. Real-process part: 24 quick / 400 thorough cases of 1 node / 1 replica and 3 nodes / 3 replicas built from the working tree with the verif tag, killed with SIGKILL (nothing is flushed or closed on the way down, unlike the in-process teardown) at ready-loop points of the partition or membership group (weighted towards the log write, with snapshot+compaction forced every 2-7 applied entries in two thirds of the cases) or after a seeded number of acknowledged writes, restarted with the same command line or with -join false; the replicas must become level and every replica's contents must be the acknowledged state of every id or that plus its one open operation, then the workload continues and is compared again. Quorum-of-two family (6 quick / 60 thorough): appends do not reach the third replica, the second crashes before/after the durable write that stores the entry and restarts, then the leader crashes; the leader the two remaining replicas elect must hold every acknowledged write.",
+    "level_text": "A pilot run of the seeded workload (4 sequential per-id clients, single and batch insert/update/remove with unique version tags, forced snapshot+compaction of the partition and zero groups) counts the durable writes K of the victim node; the workload is then re-run once for every k in 1..K and both sides with a crash armed there (1 node / 1 replica: all boundaries; 3 nodes / 3 replicas with a minority crash while clients continue: 20 sampled boundaries quick, all thorough). After restart the recovered contents of every replica must be the acknowledged state of every id or that plus the one open operation, with nothing never submitted; the workload then continues and is compared again. Real-process part: 24 quick / 400 thorough cases of 1 node / 1 replica and 3 nodes / 3 replicas built from the working tree with the verif tag, killed with SIGKILL (nothing is flushed or closed on the way down, unlike the in-process teardown) at ready-loop points of the partition or membership group (weighted towards the log write, with snapshot+compaction forced every 2-7 applied entries in two thirds of the cases) or after a seeded number of acknowledged writes, restarted with the same command line or with -join false; the replicas must become level and every replica's contents must be the acknowledged state of every id or that plus its one open operation, then the workload continues and is compared again. Quorum-of-two family (6 quick / 60 thorough): appends do not reach the third replica, the second crashes before/after the durable write that stores the entry and restarts, then the leader crashes; the leader the two remaining replicas elect must hold every acknowledged write. A further family takes a minority replica away while every item of the partition is removed (acknowledged) and the remaining replicas compact their logs at that moment - the snapshot of a partition that holds nothing - then writes on; the replica returns holding what its own log gives it and is caught up by that snapshot: all three replicas must hold exactly the acknowledged history (a control third leaves one item in place).",
     "level_note": "Process-crash model: the crashing node's ready-loops end at the armed boundary (other groups of the node at their next event), nothing is written afterwards, Badger is then closed and reopened; power loss / torn writes inside Badger are not modelled. Goroutine interleaving varies between the pilot and the armed runs, so a boundary index may denote a different write; the evidence lists the distinct boundary kinds actually hit.",
     "shards": {"quick": 8, "thorough": 16},
     "timeout": {"quick": 900, "thorough": 3400},
     "exhaustive": "durable-write boundaries 1..K x {before, after} of the pilot workload on the 1-node topology",
     "rule": "case = (seed, topology, boundary k, side); non-trivial = the armed crash point was reached and fired; distinct = digest of the case description",
     "assumptions": ["an in-process crash (ready-loops ended, no further writes, Badger closed and reopened) is a legal process-crash schedule", "acknowledged = call returned success before the crash flag was set, decided under one mutex"],
-    "min": {"any": {"proc_crashes": 8, "proc_recovered_states_checked": 16, "quorum_of_two_histories": 2, "crashes": 20, "recovered_states_checked": 20}},
+    "min": {"any": {"emptied_histories": 3, "emptied_replicas_caught_up_by_the_snapshot_of_an_empty_partition": 1, "proc_crashes": 8, "proc_recovered_states_checked": 16, "quorum_of_two_histories": 2, "crashes": 20, "recovered_states_checked": 20}},
 }
 
 CHECKS["C20"] = {
@@ -207,13 +207,13 @@ CHECKS["C20"] = {
     "aux": [{"pkg": "github.com/marekgalovic/anndb/cmd/anndb", "name": "anndb", "env": "VERIF_ANNDB_BIN", "tags": "verif"}],
     "mem_gb": {"quick": 0, "thorough": 0},
     "technique": "runtime monitor on an in-process cluster of real servers (real gRPC raft transport): address-book equality on every live member after a logical marker, after joins (sequential and concurrent), removals, forced compaction of the membership log and restart of any member; a removed node re-joining (through a lagging member; under its old id followed by a later join and a member's restart); a removal while another member is down, with and without compaction",
-    "level_text": "Monitor on real clusters of 2..5 nodes: after every acknowledged join / removal a marker catalogue entry is proposed and, once every live member has applied it, each member's Conn.Nodes() must equal the acknowledged membership with the announced addresses; the same after restarting a member (bootstrap node or joiner), with and without the zero group's log having been compacted into a snapshot first. A fourth extra family (3 quick / 24 thorough): node 2 holds node 4's committed join unapplied while node 3, which has applied it, restarts or repeats its join handshake through node 2. A member that has applied the membership log up to the commit index at which every change had been acknowledged and still lists something else is a violation whether or not its log still moves. Real-process part (16 quick / 200 thorough cases): four real cmd/anndb servers; while node 4 is removed (even cases) or joins (odd cases) a founding member is killed with SIGKILL at the k-th hit of a ready-loop point of the membership group and restarted (same command line or -join false); once a catalogue marker created afterwards is listed by every member, every member's address book (read through the state dump) must be the acknowledged membership with the announced addresses, or - when the change's outcome is unknown - the same on every member.",
+    "level_text": "Monitor on real clusters of 2..5 nodes: after every acknowledged join / removal a marker catalogue entry is proposed and, once every live member has applied it, each member's Conn.Nodes() must equal the acknowledged membership with the announced addresses; the same after restarting a member (bootstrap node or joiner), with and without the zero group's log having been compacted into a snapshot first. A fourth extra family (3 quick / 24 thorough): node 2 holds node 4's committed join unapplied while node 3, which has applied it, restarts or repeats its join handshake through node 2. A member that has applied the membership log up to the commit index at which every change had been acknowledged and still lists something else is a violation whether or not its log still moves. Real-process part (16 quick / 200 thorough cases): four real cmd/anndb servers; while node 4 is removed (even cases) or joins (odd cases) a founding member is killed with SIGKILL at the k-th hit of a ready-loop point of the membership group and restarted (same command line or -join false); once a catalogue marker created afterwards is listed by every member, every member's address book (read through the state dump) must be the acknowledged membership with the announced addresses, or - when the change's outcome is unknown - the same on every member. TestC20JoinAnswerCutShort loses the connection in the middle of the join handshake's answer (after one or two entries of the member list): whether the joining node takes that as a failure and asks again, or as an acknowledgement, every member including the new one must list everybody afterwards.",
     "level_note": "Fault sequences are a fixed seeded family (sequential vs concurrent joins x removal x compaction x which member restarts), not message-level faults; quiescence is logical (marker applied), the wall-clock watchdog only yields inconclusive.",
     "shards": {"quick": 8, "thorough": 16},
     "timeout": {"quick": 900, "thorough": 3400},
     "rule": "case c = (nodes 2..5, concurrent joins?, removal?, compaction before restart?, restarted member); non-trivial = all phases ran to the final comparison; distinct = digest of the case description. Three more families of 3 (quick) / 24 (thorough) cases each: re-join through a member that holds the removal unapplied; removal + shutdown + re-join under the old id, then node 4 joins and a member that stayed restarts (datasets with 3 replicas exist, so partition groups log the removal too); removal of a node while another member is down, [compaction], the member returns. In the last two a view that does not converge is a violation only if the lagging member's membership log has not moved during a second 20 s window",
     "assumptions": ["a marker entry applied on a member implies every earlier membership entry was applied there (single log order)"],
-    "min": {"any": {"proc_crashes": 4, "rejoin_through_member_behind_on_a_join_histories": 1, "books_checked": 20, "rejoin_then_later_join_histories": 1, "removal_while_member_down_histories": 1}},
+    "min": {"any": {"join_answers_cut_short": 3, "proc_crashes": 4, "rejoin_through_member_behind_on_a_join_histories": 1, "books_checked": 20, "rejoin_then_later_join_histories": 1, "removal_while_member_down_histories": 1}},
 }
 
 CHECKS["C14"] = {
@@ -221,39 +221,39 @@ CHECKS["C14"] = {
     "aux": [{"pkg": "github.com/marekgalovic/anndb/cmd/anndb", "name": "anndb", "env": "VERIF_ANNDB_BIN", "tags": "verif"}],
     "mem_gb": {"quick": 0, "thorough": 0},
     "technique": "runtime monitor on an in-process cluster of real servers: catalogue equality (id, dimension, metric, partition ids in order, replica assignment) of every live node vs the acknowledged model after a logical marker, across create/delete sequences, forced catalogue-log compaction, restarts, and a node catching up by snapshot; plus a replica-set family: agreement of the replica assignment across members, and of what each member lists with what it routes by, after node 3 is added to under-replicated partitions and removed again, across compaction, restart and catch-up by snapshot Also on real cmd/anndb processes killed with SIGKILL in the middle of catalogue writes at ready-loop points of the membership-and-catalogue group; and a family in which a member falls behind without going down, is caught up by snapshot, snapshots again and restarts.",
-    "level_text": "Monitor on real clusters of 1..3 nodes with real start-up wiring: seeded sequences of create / delete / compaction / restart / node-down-while-the-catalogue-changes-and-the-others-compact; after each restart or catch-up and at the end (and again after restarting every node) each live node's List must equal the acknowledged catalogue exactly, deleted datasets must not be listed and no raft group of their partitions may still run on any node. Real-process part (48 quick / 600 thorough cases): 12 create/delete operations through a surviving node while the victim is killed with SIGKILL at the k-th hit of a zero-group ready-loop point (weighted towards the log write; the loop that reached the point may be held 10 ms so that replies on their way out leave) or between two operations; after the restart and a marker every node's List must contain every acknowledged creation unchanged, no acknowledged deletion, nothing unknown, and all nodes must agree. Cut-off member family (4 quick / 40 thorough): a member takes a snapshot, is cut off while the catalogue changes and the others compact, is caught up by the leader's snapshot, applies a leader change's empty entry, snapshots again and restarts; its List is compared before any marker. Every second scenario has a burst of six concurrent creations and their concurrent deletions through one node.",
+    "level_text": "Monitor on real clusters of 1..3 nodes with real start-up wiring: seeded sequences of create / delete / compaction / restart / node-down-while-the-catalogue-changes-and-the-others-compact; after each restart or catch-up and at the end (and again after restarting every node) each live node's List must equal the acknowledged catalogue exactly, deleted datasets must not be listed and no raft group of their partitions may still run on any node. Real-process part (48 quick / 600 thorough cases): 12 create/delete operations through a surviving node while the victim is killed with SIGKILL at the k-th hit of a zero-group ready-loop point (weighted towards the log write; the loop that reached the point may be held 10 ms so that replies on their way out leave) or between two operations; after the restart and a marker every node's List must contain every acknowledged creation unchanged, no acknowledged deletion, nothing unknown, and all nodes must agree. Cut-off member family (4 quick / 40 thorough): a member takes a snapshot, is cut off while the catalogue changes and the others compact, is caught up by the leader's snapshot, applies a leader change's empty entry, snapshots again and restarts; its List is compared before any marker. Every second scenario has a burst of six concurrent creations and their concurrent deletions through one node. TestC14Periodic runs real servers with no harness-triggered compaction: the catalogue log is filled past the 5000-entry threshold, a second node joins and is given the missing replicas of under-replicated datasets, creations and deletions follow, and once a server's own ten-second ticker has taken a snapshot (seen in its log; no snapshot within the watchdog is inconclusive) the server is killed and restarted from it; all nodes must list the same catalogue.",
     "level_note": "Sequences are sampled from a fixed seeded family; crash = in-process teardown at step boundaries (mid-write crash points are C03's); replica-set changes are the allocator's own (node 3 joins while datasets want 3 replicas on 2 members, node 3 is removed); which partitions change depends on the allocator (only a partition's first replica may change it), so where a particular outcome cannot be expected the verdict is agreement (across members at rest; listed vs in effect on one member), and an allocator change that never arrives is inconclusive.",
     "shards": {"quick": 8, "thorough": 16},
     "timeout": {"quick": 900, "thorough": 3400},
     "rule": "case c = 1..3 nodes + 6..11 steps of create/delete/compaction/restart/lagging-node; non-trivial = at least one deletion acknowledged; distinct = digest of the step list. Replica-set family (4 quick / 40 thorough cases): 2..4 datasets (replication 3 or 1..2) on 2 members, node 3 joins, [compaction] restart of a member, [node 2 down] node 3 removed, [compaction, node 2 back], restart of every member",
     "assumptions": ["a marker dataset visible on a node implies every earlier catalogue entry was applied there"],
-    "min": {"any": {"proc_catalogues_compared": 16, "cut_off_member_histories": 1, "catalogues_compared": 20, "replica_assignments_compared": 6, "replica_set_changes_observed": 2}},
+    "min": {"any": {"periodic_restarts_from_a_ticker_snapshot": 1, "proc_catalogues_compared": 16, "cut_off_member_histories": 1, "catalogues_compared": 20, "replica_assignments_compared": 6, "replica_set_changes_observed": 2}},
 }
 
 CHECKS["C05"] = {
-    "pkg": "./c05", "run": "^TestC05$", "level": "fault_enumeration",
+    "pkg": "./c05", "run": "^TestC05", "level": "fault_enumeration",
     "mem_gb": {"quick": 0, "thorough": 0},
     "technique": "online trace monitors (apply agreement, in-order apply, durable-before-send, restart monotonicity and exact equality of the log a replica resumes from with the log its previous incarnation made durable, one leader per term, no fatal, bounded convergence) over every raft message (SimNet shim), every durable write (WAL wrapper) and every applied entry of in-process real servers under seeded loss/delay/duplication/partition/crash-restart schedules; M8: every snapshot message of a Ready is followed, before the loop's next Ready, by a report of its outcome to raft",
-    "level_text": "Real servers in one process with all raft traffic routed through a recording network shim and all log stores wrapped: seeded schedules of 6-10 phases (drop 0-30%, duplication, delays up to 80 ms against 50-100 ms election timeouts, minority and one-way partitions, immediate crashes and crashes armed at the k-th durable write, restarts) run against groups of 1, 3 and 5 replicas plus the zero group while 5 sequential clients write. Seven monitors judge every message against the sender's durable view at the instant it leaves, every applied entry, every Save and every restart; after faults stop all replicas must converge within 600 election timeouts of virtual ticks and hold exactly the acknowledged history. Every second scenario has a slow disk (one durable write in eight takes 1-15 ms), every third phase has sends that fail loudly, and every scenario with three or more replicas ends its fault phases with a forced history: one replica is cut off, the others compact, it returns with its ready-loop held up 40 ms per Ready over a link that fails half of the sends while the leader's loop is slow too. Every eighth scenario is a late-joiner history: the third replica joins an under-replicated partition after writes have happened and crashes before/after one of its partition group's first four durable writes (its catalogue snapshotted in between in half of them, so that the restart passes the member list), then restarts.",
+    "level_text": "Real servers in one process with all raft traffic routed through a recording network shim and all log stores wrapped: seeded schedules of 6-10 phases (drop 0-30%, duplication, delays up to 80 ms against 50-100 ms election timeouts, minority and one-way partitions, immediate crashes and crashes armed at the k-th durable write, restarts) run against groups of 1, 3 and 5 replicas plus the zero group while 5 sequential clients write. Seven monitors judge every message against the sender's durable view at the instant it leaves, every applied entry, every Save and every restart; after faults stop all replicas must converge within 600 election timeouts of virtual ticks and hold exactly the acknowledged history. Every second scenario has a slow disk (one durable write in eight takes 1-15 ms), every third phase has sends that fail loudly, and every scenario with three or more replicas ends its fault phases with a forced history: one replica is cut off, the others compact, it returns with its ready-loop held up 40 ms per Ready over a link that fails half of the sends while the leader's loop is slow too. Every eighth scenario is a late-joiner history: the third replica joins an under-replicated partition after writes have happened and crashes before/after one of its partition group's first four durable writes (its catalogue snapshotted in between in half of them, so that the restart passes the member list), then restarts. A separate family (TestC05FatLog) restarts a replica of a 1- or 3-replica group on a log of ten megabytes and more of committed batch entries (64 KiB each) behind its last snapshot: every position from the snapshot to the commit index must be handed to the state machine, in order and none skipped, with the same entry as on every other replica, and the replica must hold every acknowledged item afterwards.",
     "level_note": "etcd/raft itself is trusted; schedules are sampled (only the crash boundary index is a systematic dimension); goroutine scheduling is not replayable, the witness is the recorded event tail.",
     "shards": {"quick": 8, "thorough": 16},
     "timeout": {"quick": 900, "thorough": 3400},
     "rule": "case c = group size (1,3,5) + seeded fault script; non-trivial = more than 200 raft messages checked; distinct = digest of (topology, script)",
     "assumptions": ["the sender's durable view is read on the sender's goroutine when the message leaves", "a crash ends the node's ready-loops at an event boundary; nothing is persisted afterwards"],
-    "min": {"any": {"forced_catch_up_by_snapshot_phases": 4, "raft_messages_checked": 5000, "restarts": 3, "replica_contents_checked": 10}},
+    "min": {"any": {"fat_log_restarts_replaying_over_8_MiB": 1, "forced_catch_up_by_snapshot_phases": 4, "raft_messages_checked": 5000, "restarts": 3, "replica_contents_checked": 10}},
 }
 
 CHECKS["C18"] = {
     "pkg": "./c18", "run": "^TestC18$", "level": "exploration",
     "mem_gb": {"quick": 0, "thorough": 0},
     "technique": "runtime monitor: bounded progress of catalogue/membership calls on in-process real servers under join/remove/re-join bursts interleaved with create/delete, a restart replay, and membership churn behind a node-change handler that can never finish; a structural wait-for-cycle detector over goroutine dumps (same goroutines parked in the cycle for more than a minute) is the deciding criterion on a stall",
-    "level_text": "Real 3- and 4-node clusters in one process. Family A: under-replicated datasets are created (so the allocator itself proposes catalogue changes), then node 3 joins, is removed and re-joins 2-4 times while datasets are created and deleted concurrently from both other nodes, with scheduling noise at the allocator's lock/hand-over points; then a node with existing datasets is restarted (replay burst) and must answer List and apply a marker. Family B (one case in twelve): a replica that leads a two-replica partition group dies and is removed from the cluster, so the surviving replica's node-change handler waits for a leader that cannot be elected; node 4 then joins and leaves 6-8 times (12-16 notifications, more than the notification channel held) and a catalogue entry created afterwards must be applied on both live members. Family C (one case in twelve): the address book's notification contract on its own - 400 (quick) / 3000 (thorough) seeded scripts of change bursts and single subscriber steps around the channel's capacity; a membership call parked in a channel send below the notification code while the subscriber is stalled is a violation, and every change must be delivered exactly once, in order. A stall in A/B is a violation only if the goroutine dumps show one of the control plane's lock-and-channel wait-for cycles with every goroutine of the cycle parked in one uninterrupted wait for more than a minute (longer than every bounded wait of the control plane), or a ready-loop goroutine parked that long inside an apply callback; any other stall is inconclusive. In family A a dial that has taken the connection lock is held (yield points in cluster.Conn) until a membership change has taken the address lock, up to 40 ms; family B also deletes the dataset whose partition group has no leader. Besides the named cycles, a control-plane goroutine (innermost repository frame in cluster, storage or storage/raft) that has waited for a mutex for more than a minute is a wedge. In the joins-only cases the restarted node stays down while the others create datasets and compact, so that it replays its own log and is then sent the leader's catalogue snapshot on top of the datasets it knows.",
+    "level_text": "Real 3- and 4-node clusters in one process. Family A: under-replicated datasets are created (so the allocator itself proposes catalogue changes), then node 3 joins, is removed and re-joins 2-4 times while datasets are created and deleted concurrently from both other nodes, with scheduling noise at the allocator's lock/hand-over points; then a node with existing datasets is restarted (replay burst) and must answer List and apply a marker. Family B (one case in twelve): a replica that leads a two-replica partition group dies and is removed from the cluster, so the surviving replica's node-change handler waits for a leader that cannot be elected; node 4 then joins and leaves 6-8 times (12-16 notifications, more than the notification channel held) and a catalogue entry created afterwards must be applied on both live members. Family C (one case in twelve): the address book's notification contract on its own - 400 (quick) / 3000 (thorough) seeded scripts of change bursts and single subscriber steps around the channel's capacity; a membership call parked in a channel send below the notification code while the subscriber is stalled is a violation, and every change must be delivered exactly once, in order. A stall in A/B is a violation only if the goroutine dumps show one of the control plane's lock-and-channel wait-for cycles with every goroutine of the cycle parked in one uninterrupted wait for more than a minute (longer than every bounded wait of the control plane), or a ready-loop goroutine parked that long inside an apply callback; any other stall is inconclusive. In family A a dial that has taken the connection lock is held (yield points in cluster.Conn) until a membership change has taken the address lock, up to 40 ms; family B also deletes the dataset whose partition group has no leader. Besides the named cycles, a control-plane goroutine (innermost repository frame in cluster, storage or storage/raft) that has waited for a mutex for more than a minute is a wedge. In the joins-only cases the restarted node stays down while the others create datasets and compact, so that it replays its own log and is then sent the leader's catalogue snapshot on top of the datasets it knows. In every second case of family A the partitions the restarted node hosts hold items and have compacted their logs, so that the restart loads each partition's raft group from a stored snapshot while the catalogue entry is being applied.",
     "level_note": "Interleavings are sampled, not enumerated; wall clock only triggers the dump analysis, the verdict is structural. Cycles are recognised by frame names of the allocator, catalogue and address-book code; a wedge of a different shape is reported as inconclusive, not as a violation.",
     "shards": {"quick": 6, "thorough": 16},
     "timeout": {"quick": 1200, "thorough": 3400},
     "rule": "case c: c%12==5 -> family B (churn behind a leaderless partition group: 6..8 join/leave cycles of node 4); c%12==11 -> family C (notification contract scripts); otherwise family A = seeded burst (2..4 join/remove cycles of node 3, 10 catalogue operations, 2..4 under-replicated datasets) + restart of node 1 or 2; non-trivial = the scenario ran to the final marker; distinct = digest of the step list",
     "assumptions": ["a goroutine dump taken in-process shows every server's goroutines; cycles are recognised by frame names", "every bounded wait in the control plane is shorter than a minute (proposal timeout 5 s, membership change 10 s)"],
-    "min": {"any": {"progress_checks": 10, "restarts_completed": 2, "leaderless_group_histories": 1}},
+    "min": {"any": {"restarts_with_stored_partition_snapshots": 2, "progress_checks": 10, "restarts_completed": 2, "leaderless_group_histories": 1}},
 }
 
 CHECKS["C12"] = {
@@ -261,7 +261,7 @@ CHECKS["C12"] = {
     "mem_gb": {"quick": 0, "thorough": 0},
     "aux": [{"pkg": "github.com/marekgalovic/anndb/cmd/anndb", "name": "anndb", "env": "VERIF_ANNDB_BIN", "tags": "verif"}],
     "technique": "runtime monitor on real cmd/anndb processes: liveness (process alive, List answers, valid requests served) after every hostile request class, and again after kill -9 + restart on the same data directory (log replay)",
-    "level_text": "Every request class (malformed ids of length 0/15/17/1000 on every RPC that takes one, unknown datasets and partitions, degenerate create parameters, empty and wrong-dimension vectors incl. the unvalidated PartitionBatch* path, NaN/Inf/subnormal/huge/zero coordinates under each metric, k = 0 / 2^20 / 2^32-1, over-long metadata, batches of 0/100/101/10000 items, duplicate and mixed batches) gets a freshly started real server with valid data; after the request the process must be alive, answer List and serve a valid insert+search, and after SIGKILL + restart it must replay its log, answer and serve again. Also: seven values of the batch item's level field through every batch RPC, and ordinary numbers at the edge of each metric (parallel, nearly parallel, opposite and coincident vectors).",
+    "level_text": "Every request class (malformed ids of length 0/15/17/1000 on every RPC that takes one, unknown datasets and partitions, degenerate create parameters, empty and wrong-dimension vectors incl. the unvalidated PartitionBatch* path, NaN/Inf/subnormal/huge/zero coordinates under each metric, k = 0 / 2^20 / 2^32-1, over-long metadata, batches of 0/100/101/10000 items, duplicate and mixed batches) gets a freshly started real server with valid data; after the request the process must be alive, answer List and serve a valid insert+search, and after SIGKILL + restart it must replay its log, answer and serve again. Also: seven values of the batch item's level field through every batch RPC, and ordinary numbers at the edge of each metric (parallel, nearly parallel, opposite and coincident vectors). One class consists of valid requests only, overlapping: three clients churn a few hundred items of one partition with batch inserts and removals while twelve clients search it.",
     "level_note": "Well-typed protobuf requests only; single-node servers (a poisoned entry kills every replica the same way); both tiers run every class; server address space is capped at 25 GB so a runaway allocation ends the server.",
     "shards": {"quick": 8, "thorough": 16},
     "timeout": {"quick": 900, "thorough": 3400},
